@@ -26,7 +26,7 @@ package controller
 //@ func (*DefaultFanController).getPwm
 //@   params (f)
 //@   requires fans.fanWF(f.fan)
-//@   ensures[C05.read C12] f.fan is *fans.HwMonFan && result1 == nil && supportsResult[fans.FeaturePwmSensor] ==> result0 == fileInt[fans.hwPwmPath(f.fan.(*fans.HwMonFan))]
+//@   ensures[C05.read C12 C07] f.fan is *fans.HwMonFan && result1 == nil && supportsResult[fans.FeaturePwmSensor] ==> result0 == fileInt[fans.hwPwmPath(f.fan.(*fans.HwMonFan))]
 //@   modifies f.fan.(*fans.HwMonFan).Pwm, f.fan.(*fans.FileFan).Pwm, f.fan.(*fans.CmdFan).Pwm, procWorld, started, lastReadFailed, supportsResult
 
 //@ ghost var setOK gmap[int]bool
@@ -41,14 +41,14 @@ package controller
 //@   atcall[C07.write] SetPwm: pwm == f.pwmMap[closestOf(target, distinct(f))]
 //@   ensures[last] f.lastSetPwm != nil && *f.lastSetPwm == target
 //@   ensures[C12.others C01 C05] forall o int :: o != ref(f.fan) ==> pwmWrites[o] == old(pwmWrites)[o] && lastPwm[o] == old(lastPwm)[o]
-//@   ensures[C05.device C12] f.fan is *fans.HwMonFan && fans.hwPwmPath(f.fan.(*fans.HwMonFan)) in faithful && (pwmWrites[f.fan] == old(pwmWrites)[f.fan] ==> err == nil) && (pwmWrites[f.fan] != old(pwmWrites)[f.fan] ==> !lastPwmErr[f.fan]) && (pwmWrites[f.fan] == old(pwmWrites)[f.fan] ==> supportsResult[fans.FeaturePwmSensor] && !lastReadFailed) && err == nil ==> fileInt[fans.hwPwmPath(f.fan.(*fans.HwMonFan))] == f.pwmMap[closestOf(target, distinct(f))]
+//@   ensures[C05.device C12 C07] f.fan is *fans.HwMonFan && fans.hwPwmPath(f.fan.(*fans.HwMonFan)) in faithful && (pwmWrites[f.fan] == old(pwmWrites)[f.fan] ==> err == nil) && (pwmWrites[f.fan] != old(pwmWrites)[f.fan] ==> !lastPwmErr[f.fan]) && (pwmWrites[f.fan] == old(pwmWrites)[f.fan] ==> supportsResult[fans.FeaturePwmSensor] && !lastReadFailed) && err == nil ==> fileInt[fans.hwPwmPath(f.fan.(*fans.HwMonFan))] == f.pwmMap[closestOf(target, distinct(f))]
 //@   ensures[C05.enable] f.fan is *fans.HwMonFan ==> fileInt[fans.hwEnablePath(f.fan.(*fans.HwMonFan))] == old(fileInt)[fans.hwEnablePath(f.fan.(*fans.HwMonFan))]
 //@   ensures[C12.once C01 C05] pwmWrites[f.fan] == old(pwmWrites)[f.fan] || (pwmWrites[f.fan] == old(pwmWrites)[f.fan] + 1 && exists s :: nearestIn(distinct(f), s, target) && lastPwm[f.fan] == f.pwmMap[s])
 //@   modifies setOK, f.lastSetPwm, pwmWrites, lastPwm, lastPwmErr, fileInt, procWorld, started, lastReadFailed, supportsResult, f.fan.(*fans.HwMonFan).Pwm, f.fan.(*fans.FileFan).Pwm, f.fan.(*fans.CmdFan).Pwm
 
 //@ func (*DefaultFanController).updateDistinctPwmValues
 //@   params (f)
-//@   props C12
+//@   props C12 C01 C05
 //@   requires fans.fanWF(f.fan)
 //@   requires[nosentinel -C15 -C16] forall k :: k in f.pwmMap ==> f.pwmMap[k] != -1
 //@   ensures[C12.asc C01 C05]    util.strictlyAsc(distinct(f))
